@@ -414,6 +414,7 @@ func TestDeterministicCompile(t *testing.T) {
 	g := genCase([]string{"bn254", "bn254", "bls12-377", "bls12-381", "bw6-761", "bls24-315", "f47", "f47", "koalabear"})
 	rec.Check(t, "determinism", ev.N(120, 3000), func(rt *rapid.T) {
 		c := g.Draw(rt, "case")
+		rec.Begin("determinism", c)
 		rec.Report(rt, "determinism", c, run(c))
 	})
 }
